@@ -106,14 +106,22 @@ def extra(ctx):
 
 TECHNIQUE = "Lean 4 invariant proof over an interleaving model (any number of connections, both modes, stale flag reads) + trace inclusion of hook-point traces of the real server under jitter and ASan"
 LEVEL_TEXT = ("Proved in Lean 4 for any number of connections, concurrent and sequential mode, every interleaving of clients, accept "
-              "loop, handlers and controller (including accept-loop reads of _requestStop that still see the old value): serve() is "
-              "entered at most once per accepted connection, only after the connection was counted, the socket is closed only after "
-              "serve() returned and a finished handler served exactly once (serve_exactly_once); in every state where stop(true) has "
-              "returned the accept loop has exited, running() is false, the client count is 0 and every accepted connection is fully "
-              "served, closed and un-counted (stop_sync_quiescent); afterwards no serve() starts or ends, running() stays false and "
-              "the destroyed server is never used (after_stop_nothing_happens, never_used_after_destruction). Tie: hook-point traces "
-              "of the real server (TCP and Unix sockets, both modes, 0..200 clients, bursts/trickles/early closes, stop at a seeded "
-              "moment, destruction with threads alive, seeded jitter, ASan) must each be accepted step by step by the model, and "
-              "per-connection token oracles are checked on the real server.")
+              "loop, handlers and controller (including accept-loop reads of _requestStop that still see the old value, and the loop "
+              "giving up on its own when waitInput fails): serve() is entered at most once per accepted connection, only after the "
+              "connection was counted, the socket is closed only after serve() returned and a finished handler served exactly once "
+              "(serve_exactly_once); in every state where stop(true) has returned the accept loop has exited, running() is false, the "
+              "client count is 0 and every accepted connection is fully served, closed and un-counted (stop_sync_quiescent); afterwards "
+              "no serve() starts or ends, running() stays false and neither the destroyed server nor the thread object it owns is "
+              "ever used: the accept thread, which is still finishing when stop(true) returns, has completely ended before the "
+              "destructor frees anything (after_stop_nothing_happens, never_used_after_destruction, accept_thread_ended_before_free; "
+              "destroy_without_join_unsafe is the counterexample for the destructor as it was before its repair). Tie: hook-point "
+              "traces of the real server (TCP and Unix sockets, one or two endpoints, both modes, 0..200 clients, bursts/trickles/"
+              "early closes/slow clients, stop at a seeded moment, destruction with threads alive, seeded jitter incl. a busy accept "
+              "thread at its very end, ASan) must each be accepted step by step by the model, and per-connection token oracles are "
+              "checked on the real server.")
 LEVEL_NOTE = ("Trusted: POSIX socket semantics, atomic plain-bool flags, the recording harness and acceptor. The traces come from OS "
-              "scheduling with injected jitter, not from exhaustive enumeration; liveness (stop(true) eventually returns) is not claimed.")
+              "scheduling with injected jitter, not from exhaustive enumeration; liveness (stop(true) eventually returns) is not "
+              "claimed. Not modelled (observed by the harness oracles and ASan only): the reference-counted Socket handle staying "
+              "valid during serve(), several listening sockets and the activeAt(i) batch of one select round, accept() returning an "
+              "invalid socket (such a 'connection' is still counted and served: the badsock oracle). Connections whose token never "
+              "arrives (client closed early) are judged for exactly-once by the trace acceptor only.")
